@@ -18,7 +18,7 @@ import (
 	"verif/internal/chain"
 )
 
-// roles (key indexes): 4 owns every parameter except pos/MaxValidators (owned by 3); 2 is the DAO
+// roles (key indexes): 4 owns every parameter except pos/MaxValidators and gov/upgrade (owned by 3); 2 is the DAO
 // owner; 1 is a validator without any role; 3 doubles as "owner of a different parameter".
 const (
 	gOwner    = 4
@@ -30,7 +30,7 @@ const (
 func c17cfg() chain.Config {
 	cfg := baseCfg()
 	cfg.Owner, cfg.DAOOwner = gOwner, gDAOOwner
-	cfg.ACLOwners = map[string]int{"pos/MaxValidators": gOwner2}
+	cfg.ACLOwners = map[string]int{"pos/MaxValidators": gOwner2, "gov/upgrade": gOwner2} // (the upgrade plan and the ACL itself have different owners)
 	cfg.DAOTokens = 1000
 	return cfg
 }
@@ -224,6 +224,10 @@ func c17alphabet(full bool) []Choice {
 		v := strings.Replace(vals["gov/acl"][0], chain.Addr(gStranger).String(), longHex(n), 1)
 		cs = append(cs, txB(fmt.Sprintf("change(gov/acl,by=k%d,an entry with a %d-byte address)", gOwner, n), chain.TxSpec{Msg: "change_param", From: gOwner, Key: "gov/acl", Val: v}))
 	}
+	// a value whose fields are the zero values (an encoder may leave such fields out; what is stored
+	// afterwards is still the value that was sent, not a mixture with the previous one)
+	cs = append(cs, txB(fmt.Sprintf("change(auth/FeeMultipliers,by=k%d,default multiplier 0)", gOwner), chain.TxSpec{Msg: "change_param", From: gOwner, Key: "auth/FeeMultipliers", Val: mj(authTypes.FeeMultipliers{Default: 0})}))
+	cs = append(cs, txB(fmt.Sprintf("change(auth/FeeMultipliers,by=k%d,one entry, default 0)", gOwner), chain.TxSpec{Msg: "change_param", From: gOwner, Key: "auth/FeeMultipliers", Val: mj(authTypes.FeeMultipliers{FeeMultis: []authTypes.FeeMultiplier{{Key: "send", Multiplier: 2}}, Default: 0})}))
 	// an ACL that lists a key twice with different addresses (accepted by ACL.Validate): everybody
 	// the list does not name for a key is still a stranger for it
 	dup := govTypes.ACL(make([]govTypes.ACLPair, 0))
